@@ -510,3 +510,44 @@ Section StepSafety.
   Qed.
 
 End StepSafety.
+
+(* ------------------------------------------------------------------ the loop *)
+Lemma count_op_frame : forall E m m1 over, count_op E m = (m1, over) -> m_fr m1 = m_fr m.
+Proof. unfold count_op; intros E m m1 over. destruct (ops_add _ _ _). intros [= <- <-]. reflexivity. Qed.
+
+Lemma nth_error_in_range : forall A (l : list A) z, 0 <= z -> z < zlen l -> nth_error l (Z.to_nat z) <> None.
+Proof. unfold zlen; intros A l z H1 H2. apply nth_error_Some. lia. Qed.
+
+Theorem C01_exec_no_panic_partial : forall E, ftab_wf (e_ftab E) = true ->
+  forall fuel m, machine_ok m -> res_ok (exec fuel E m).
+Proof.
+  intros E Hft. induction fuel as [|f IH]; intros m Hm; [exact Logic.I|].
+  cbn [exec]. destruct Hm as (W1 & W2 & F & Hpc).
+  destruct (zlen (fr_code (m_fr m)) <=? fr_pc (m_fr m)) eqn:Hlen; [destruct (fr_err (m_fr m)); exact Logic.I|].
+  apply Z.leb_gt in Hlen.
+  destruct (count_op E m) as [m1 over] eqn:Hc. pose proof (count_op_frame _ _ _ _ Hc) as Hfr.
+  destruct over; [exact Logic.I|]. destruct (fr_err (m_fr m)); [exact Logic.I|].
+  destruct (fr_top (m_fr m) =? stack_size) eqn:Htop; [exact Logic.I|]. apply Z.eqb_neq in Htop.
+  destruct (fr_pc (m_fr m) <? 0) eqn:Hneg; [apply Z.ltb_lt in Hneg; lia|].
+  destruct (nth_error (fr_code (m_fr m)) (Z.to_nat (fr_pc (m_fr m)))) as [[op o]|] eqn:Hn.
+  2:{ exfalso. exact (nth_error_in_range _ _ _ Hpc Hlen Hn). }
+  assert (Hmid : mid (fr_code (m_fr m)) (fr_src (m_fr m)) (fr_pc (m_fr m)) (m_fr m1)).
+  { rewrite Hfr. unfold mid. split; [exact F|]. split; [|reflexivity]. destruct F as (_ & _ & Ht & _). lia. }
+  pose proof (C01_step_no_panic_partial (exec f E) f E _ _ _ Hpc Hft IH op o m1 _ Hmid
+                (code_wf_nth _ _ _ W1 Hn) (spans_wf_nth _ _ _ _ W2 Hn)) as HQ.
+  destruct (step (exec f E) f E {| i_op := op; i_arg := o |} m1) as [m2|m2|e m2|s| |s]; try exact Logic.I.
+  - apply IH. cbn [Q] in HQ. destruct HQ as [F2 P2].
+    unfold machine_ok; cbn [m_fr]. unfold frame_ok in *. fr_unfold.
+    destruct F2 as (C2 & S2 & R2). rewrite C2, S2. repeat (split; [tauto|]). lia.
+  - exact HQ.
+Qed.
+
+Theorem C01_run_no_panic_partial : forall E c src,
+  code_wf c = true -> spans_wf (Some src) c = true -> ftab_wf (e_ftab E) = true ->
+  forall fuel st, match run fuel E c src st with OPanic s => allowed s | _ => True end.
+Proof.
+  intros E c src W1 W2 Hft fuel st. unfold run.
+  match goal with |- context [exec fuel E ?m] =>
+    pose proof (C01_exec_no_panic_partial E Hft fuel m (new_frame_machine_ok _ _ _ W1 W2)) as H;
+    destruct (exec fuel E m) end; try exact Logic.I. exact H.
+Qed.
